@@ -94,6 +94,8 @@ def request_pipeline(r, rng, tables, sig, thorough):
             phone = cc + national
             cfg = Config(phone=phone, cc=cc, mcc=rng.choice(["262", "1", "20"]), mnc=rng.choice(["2", "07", "410"]), sim_mcc=rng.choice(["000", "26"]),
                          sim_mnc=rng.choice(["000", "1"]), pushname=u"verif \xe9")
+            if i % 5 == 3:
+                cfg.login = cc + "1" + national      # the stored login may differ from the phone number (number formats changed): requests go by the phone
             kind = ("code", "register", "exists")[i % 3]
             if kind != "code" or i % 2:
                 cfg.id = os.urandom(20)        # a code request with an id first asks whether the account exists
